@@ -63,9 +63,20 @@ class Store:
                 shutil.rmtree(self.dir, ignore_errors=True)
 
 
+def created_us(text):
+    """the creation instant of a bucket as integer µs (the backends keep it as ISO text: sqlite and memory as
+    given, peewee normalised to UTC) - compared as an instant"""
+    from datetime import datetime
+
+    try:
+        return dt_to_us(datetime.fromisoformat(text))
+    except Exception:
+        return text
+
+
 def meta_tuple(m):
-    """canonical [name, type, client, hostname, created, data_text] of a metadata dict"""
-    return [m.get("name"), m["type"], m["client"], m["hostname"], m["created"], canon_data(m.get("data") or {})]
+    """canonical [name, type, client, hostname, created instant, data_text] of a metadata dict"""
+    return [m.get("name"), m["type"], m["client"], m["hostname"], created_us(m["created"]), canon_data(m.get("data") or {})]
 
 
 def dump(store):
@@ -76,6 +87,9 @@ def dump(store):
         evs = [ev_tuple(e) for e in store.st.get_events(b, -1)]
         evs.sort(key=lambda e: (e[0] is None, e[0]))
         out[b] = {"meta": meta_tuple(bs[b]), "events": evs, "count": store.st.get_eventcount(b)}
+        described = meta_tuple(store.st.get_metadata(b))
+        if described != out[b]["meta"]:
+            out[b]["described"] = described  # describing a bucket must agree with the listing
     return out
 
 
@@ -119,7 +133,7 @@ class Runner:
                 if k == "create":
                     m = op[2]
                     ds.create_bucket(op[1], m["type"], m["client"], m["hostname"],
-                                     created=us_to_dt(m["created_us"]), name=m.get("name"),
+                                     created=us_to_dt(m["created_us"], m.get("created_off", 0)), name=m.get("name"),
                                      data=json.loads(m["data"]) if m.get("data") is not None else None)
                     out = ["ok"]
                 elif k == "update":
@@ -280,7 +294,8 @@ def model_lines(backend, resolved, with_dumps=True):
 
 def read_meta(t):
     name = t.opt(t.str)
-    return [name, t.str(), t.str(), t.str(), t.str(), t.str()]
+    typ, client, host, created, data = t.str(), t.str(), t.str(), t.str(), t.str()
+    return [name, typ, client, host, created_us(created), data]
 
 
 def parse_dump(line):
